@@ -81,14 +81,20 @@ type Val struct {
 // State is the mutable part of the symbolic state.
 type State struct {
 	cells map[*Cell]string
+	// ptrs remembers, for cells that hold a pointer (captured pointer variables), which location the
+	// stored pointer designates, so that pointer identity survives a store/load round trip.
+	ptrs map[*Cell]Val
 }
 
-func NewState() *State { return &State{cells: map[*Cell]string{}} }
+func NewState() *State { return &State{cells: map[*Cell]string{}, ptrs: map[*Cell]Val{}} }
 
 func (s *State) clone() *State {
 	n := NewState()
 	for k, v := range s.cells {
 		n.cells[k] = v
+	}
+	for k, v := range s.ptrs {
+		n.ptrs[k] = v
 	}
 	return n
 }
@@ -184,6 +190,7 @@ func (vc *VC) store(st *State, l *Loc, v string) {
 		nv = vc.define("st_"+l.Cell.Name, vc.cellSort(l.Cell), nv)
 	}
 	st.cells[l.Cell] = nv
+	delete(st.ptrs, l.Cell)
 }
 
 // term returns the SMT term of a value in the given state (reads object cells).
